@@ -68,6 +68,9 @@ type Exec struct {
 	MapOrderMax    int  // enumerate all iteration orders up to this map size
 	MapOrderSticky bool // one (chosen) iteration order per map object until it is mutated
 	SchedChoice    bool // explore interleavings at synchronisation operations
+	tr             *Tracer
+	clock          int
+	slots          map[string]*smt.Term
 	MaxSchedPoints int
 	schedPoints    int
 	inYield        bool
@@ -210,6 +213,11 @@ func (ex *Exec) load(addr *Value) Value {
 	if ex.accessLog != nil {
 		ex.accessLog.note(ex, addr, false)
 	}
+	if ex.tr != nil && ex.trOn() {
+		if v, ok := ex.trLoad(addr); ok {
+			return v
+		}
+	}
 	return copyVal(*addr)
 }
 
@@ -236,6 +244,9 @@ func (ex *Exec) store(addr *Value, v Value) {
 	}
 	if ex.accessLog != nil {
 		ex.accessLog.note(ex, addr, true)
+	}
+	if ex.tr != nil && ex.trOn() && ex.trStore(addr, v) {
+		return
 	}
 	storeInto(addr, v)
 }
@@ -371,6 +382,11 @@ func (ex *Exec) call(caller *frame, fn Value, args []Value) Value {
 }
 
 func (ex *Exec) callSSA(caller *frame, fn *ssa.Function, args []Value, env []Value) Value {
+	if ex.tr != nil && ex.trOn() {
+		if r, ok := ex.trCall(fn, args); ok {
+			return r
+		}
+	}
 	if fn.Parent() == nil {
 		name := fn.String()
 		if fn.Name() == "init" && fn.Pkg != nil && fn.Signature.Recv() == nil && fn.Synthetic != "" {
@@ -693,6 +709,12 @@ func (ex *Exec) visit(fr *frame, instr ssa.Instruction) int {
 		ex.spawn(fr, fn, args)
 
 	case *ssa.MakeChan:
+		if ex.tr != nil && ex.trOn() {
+			r := ex.tr.fresh(ex, regW)
+			ex.tr.emit(ex, TraceEvent{Kind: "makechan", Args: []*smt.Term{narrow(fr.get(instr.Size).(*smt.Term))}, Res: []*smt.Term{r}})
+			fr.env[instr] = &Chan{abs: r}
+			break
+		}
 		n, ok := ex.P.concretize(fr.get(instr.Size).(*smt.Term), 0, int64(ex.MaxMake), true)
 		if !ok {
 			ex.abort("make(chan) with size outside 0..%d", ex.MaxMake)
@@ -1101,6 +1123,11 @@ func (ex *Exec) callBuiltin(caller *frame, fn *ssa.Builtin, args []Value) Value 
 		case *Chan:
 			if x == nil {
 				return smt.BVC(64, 0)
+			}
+			if ex.tr != nil && ex.trOn() {
+				r := ex.tr.fresh(ex, regW)
+				ex.tr.emit(ex, TraceEvent{Kind: "len", Obj: ex.trChanRef(x), Res: []*smt.Term{r}})
+				return wide(r)
 			}
 			return smt.BVC(64, uint64(len(x.Buf)))
 		}
